@@ -29,6 +29,13 @@ class Abort(Exception):
     """The documented machine aborts (verification fails)."""
 
 
+def tup(x):
+    """JSON round trip: nested lists back to nested tuples."""
+    if isinstance(x, (list, tuple)):
+        return tuple(tup(y) for y in x)
+    return x
+
+
 def evar(n): return ('e', n)
 def svar(n): return ('s', n)
 def sym(n): return ('y', n)
